@@ -102,7 +102,7 @@ def conditions(ctx, clauses='g1,g2,g3,g4,g5', focus='C09'):
     if q:
         n = 6 if focus == 'C09' else 3
         start = (ctx.seed * n) % len(holes)
-        holes = [holes[(start + i * 3) % len(holes)] for i in range(n)]
+        holes = sorted(set(([0, 24, 25, 26, 27] if focus == 'C09' else []) + [holes[(start + i * 3) % len(holes)] for i in range(n - 3)]))
     for k in holes:
         pre, post = TOK.HOLES[k]
         for vi in ([4] if q else [0, 4]):
